@@ -1,6 +1,5 @@
 /-
-  Lemmas for C13, part 6: shallow_equal_ignore_attributes with an ignore list without repeated
-  names compares the canonical values with the listed names disregarded.
+  Lemmas for C13, part 6: shallow_equal_ignore_attributes (any ignore list) compares the canonical values with the listed names disregarded.
 -/
 import XotModel.Lemmas.CompareCanon
 
@@ -67,58 +66,26 @@ theorem shallowCountLoop_eq (ign : List Nat) (b : Tree) (l : Attrs) : ∀ (c : N
         simp only [shallowCountLoop, hc', Bool.false_eq_true, ↓reduceIte, hne, List.all_cons, hne',
           Bool.false_and]
 
-/-- The second loop counts, for a repeat-free ignore list, the ignored entries of `b`. -/
-theorem ignoreCount_eq (ign : List Nat) (B : Attrs) (hi : ign.Nodup) (hB : keysNodup B) :
-    (ign.filter fun n => (B.lookup n).isSome).length = (B.filter fun kv => ign.contains kv.1).length := by
-  have e : (B.filter fun kv => ign.contains kv.1).length = ((B.map (·.1)).filter fun n => ign.contains n).length := by
-    rw [List.filter_map, List.length_map]; rfl
-  rw [e]
-  apply List.Perm.length_eq
-  rw [List.perm_ext_iff_of_nodup (List.Nodup.sublist List.filter_sublist hi)
-    (List.Nodup.sublist List.filter_sublist hB)]
-  intro n
-  simp only [List.mem_filter, List.lookup_isSome_iff, beq_iff_eq, List.mem_map, List.contains_eq_mem,
-    decide_eq_true_eq]
-  constructor
-  · rintro ⟨h1, p, hp, rfl⟩; exact ⟨⟨p, hp, rfl⟩, h1⟩
-  · rintro ⟨⟨p, hp, rfl⟩, h1⟩; exact ⟨h1, p, hp, rfl⟩
+/-- `b_attributes.keys().filter(..).count()` is the number of non-ignored entries of `b`. -/
+theorem shallowCompareCount_eq (ign : List Nat) (b : Tree) :
+    shallowCompareCount ign b = (b.attrs.filter (notIgnored ign)).length := by
+  unfold shallowCompareCount
+  rw [List.filter_map, List.length_map]; rfl
 
-theorem filter_length_split (B : Attrs) (ign : List Nat) :
-    B.length = (B.filter fun kv => ign.contains kv.1).length + (B.filter (notIgnored ign)).length := by
-  induction B with
-  | nil => rfl
-  | cons x xs ih =>
-    obtain ⟨k, v⟩ := x
-    by_cases h : k ∈ ign
-    · have hc : ign.contains k = true := by simpa using h
-      rw [filter_notIgnored_mem v xs h, List.filter_cons]
-      simp only [hc, ↓reduceIte, List.length_cons]; omega
-    · have hc : ign.contains k = false := by simpa using h
-      rw [filter_notIgnored_not_mem v xs h, List.filter_cons]
-      simp only [hc, Bool.false_eq_true, ↓reduceIte, List.length_cons]; omega
-
-/-- The element / element case of `shallow_equal_ignore_attributes`, on the attribute lists. -/
-theorem shallowIgnore_core (ign : List Nat) (A B : Attrs) (b : Tree) (hb : ∀ k, b.getAttribute k = B.lookup k)
-    (hlen : b.attrLen = B.length) (hi : ign.Nodup) (hA : keysNodup A) (hB : keysNodup B)
-    (la : A.length < usizeModulus) (lb : B.length < usizeModulus) :
+/-- The element / element case of `shallow_equal_ignore_attributes`, on the attribute lists:
+    every ignore list, repeated and absent names included. -/
+theorem shallowIgnore_core (ign : List Nat) (A B : Attrs) (b : Tree) (hb : b.attrs = B)
+    (hA : keysNodup A) (hB : keysNodup B) (la : A.length < usizeModulus) :
     (match shallowCountLoop ign b A 0 with
       | none => false
-      | some count => count == usizeSub b.attrLen (usizeWrap (shallowIgnoreCount ign b))) = true ↔
+      | some count => count == shallowCompareCount ign b) = true ↔
     sortAttrs (A.filter (notIgnored ign)) = sortAttrs (B.filter (notIgnored ign)) := by
   have hA' := keysNodup_filter (notIgnored ign) hA
   have hB' := keysNodup_filter (notIgnored ign) hB
+  have hget : ∀ k, b.getAttribute k = B.lookup k := by intro k; unfold Tree.getAttribute; rw [hb]
   rw [← attrs_lookup_iff_sort hA' hB']
-  have hcount : shallowIgnoreCount ign b = (B.filter fun kv => ign.contains kv.1).length := by
-    unfold shallowIgnoreCount
-    simp only [hb]
-    exact ignoreCount_eq ign B hi hB
-  have hsplit := filter_length_split B ign
   have hfa : (A.filter (notIgnored ign)).length ≤ A.length := List.length_filter_le _ _
-  have hsub : usizeSub b.attrLen (usizeWrap (shallowIgnoreCount ign b)) = (B.filter (notIgnored ign)).length := by
-    rw [hcount, hlen]
-    unfold usizeSub usizeWrap usizeModulus at *
-    omega
-  rw [shallowCountLoop_eq ign b A 0 (by decide), hsub]
+  rw [shallowCountLoop_eq ign b A 0 (by decide), shallowCompareCount_eq, hb]
   have hall : ((A.filter (notIgnored ign)).all (fun kv => b.getAttribute kv.1 == some kv.2) = true) ↔
       ∀ kv ∈ A.filter (notIgnored ign), (B.filter (notIgnored ign)).lookup kv.1 = some kv.2 := by
     simp only [List.all_eq_true, beq_iff_eq]
@@ -127,12 +94,12 @@ theorem shallowIgnore_core (ign : List Nat) (A B : Attrs) (b : Tree) (hb : ∀ k
       have hk : kv.1 ∉ ign := by
         have := (List.mem_filter.mp hkv).2
         simpa [notIgnored] using this
-      rw [lookup_filter_notIgnored ign B hk, ← hb]; exact h kv hkv
+      rw [lookup_filter_notIgnored ign B hk, ← hget]; exact h kv hkv
     · intro h kv hkv
       have hk : kv.1 ∉ ign := by
         have := (List.mem_filter.mp hkv).2
         simpa [notIgnored] using this
-      rw [hb, ← lookup_filter_notIgnored ign B hk]; exact h kv hkv
+      rw [hget, ← lookup_filter_notIgnored ign B hk]; exact h kv hkv
   by_cases hm : (A.filter (notIgnored ign)).all (fun kv => b.getAttribute kv.1 == some kv.2) = true
   · simp only [hm, ↓reduceIte, Nat.zero_add, beq_iff_eq]
     have : (A.filter (notIgnored ign)).length % usizeModulus = (A.filter (notIgnored ign)).length :=
@@ -150,12 +117,12 @@ theorem filter_const_true {α} (l : List α) : l.filter (fun _ => true) = l := b
 theorem cvalueIgnoring_nil (v : Value) (ks : List Tree) : cvalueIgnoring [] v ks = cvalue v ks := by
   cases v <;> simp [cvalueIgnoring, cvalue, filter_const_true]
 
-/-- `shallow_equal_ignore_attributes` with a repeat-free ignore list, any two nodes whose own
-    children are well ordered with unique attribute names (machine-size attribute lists). -/
+/-- `shallow_equal_ignore_attributes`, every ignore list, any two nodes whose own children are
+    well ordered with unique attribute names (`a` with a machine-size attribute list). -/
 theorem shallowEqualIgnore_iff (a b : Tree) (ign : List Nat)
     (oa : orderedKids a.kids = true) (ob : orderedKids b.kids = true)
-    (na : attrNamesNodup a.kids = true) (nb : attrNamesNodup b.kids = true) (hi : ign.Nodup)
-    (la : a.attrLen < usizeModulus) (lb : b.attrLen < usizeModulus) :
+    (na : attrNamesNodup a.kids = true) (nb : attrNamesNodup b.kids = true)
+    (la : a.attrLen < usizeModulus) :
     shallowEqualIgnoreAttributes a b ign = true ↔
       cvalueIgnoring ign a.value a.kids = cvalueIgnoring ign b.value b.kids := by
   obtain ⟨va, ka⟩ := a
@@ -165,11 +132,9 @@ theorem shallowEqualIgnore_iff (a b : Tree) (ign : List Nat)
   · obtain ⟨n, m, rfl, rfl⟩ := he
     have na' : keysNodup (attrPairs ka) := by simpa [attrNamesNodup, keysNodup] using na
     have nb' : keysNodup (attrPairs kb) := by simpa [attrNamesNodup, keysNodup] using nb
-    have hb : ∀ k, (Tree.node (.element m) kb).getAttribute k = (attrPairs kb).lookup k := by
-      intro k; unfold Tree.getAttribute; rw [attrs_of_ordered ob]
     rw [attrLen_of_ordered oa] at la
-    have hlen := attrLen_of_ordered (v := .element m) ob
-    have core := shallowIgnore_core ign (attrPairs ka) (attrPairs kb) _ hb hlen hi na' nb' la (hlen ▸ lb)
+    have core := shallowIgnore_core ign (attrPairs ka) (attrPairs kb) (.node (.element m) kb)
+      (attrs_of_ordered ob) na' nb' la
     simp only [shallowEqualIgnoreAttributes, Tree.value, attrs_of_ordered oa, cvalueIgnoring,
       CValue.element.injEq]
     by_cases hnm : n = m
